@@ -64,14 +64,14 @@ Proof.
   - intros; apply esc_step.
 Qed.
 
-Lemma run_bq_esc strip sepc q S ty i m A t acc sa sc :
+Lemma run_bq_esc strip sepc d q S ty i m A t acc sa sc :
   first_char_ok quoted_specials sa sc t = true ->
-  run strip sepc (BQ q S ty i m A acc sa sc) (esc_with quoted_specials t)
-  = Ok (BQ q S ty i m A (acc ++ kept strip quoted_specials t) (aft sa t) (aft sc t)).
+  run strip sepc (BQD d q S ty i m A acc sa sc) (esc_with quoted_specials t)
+  = Ok (BQD d q S ty i m A (acc ++ kept strip quoted_specials t) (aft sa t) (aft sc t)).
 Proof.
   apply (esc_run strip sepc
-           (fun acc sa sc => Gst false S ty [qchar q; "["%char] i m A None 0 CNone acc sa sc)
-           (fun acc sa sc => Gst true S ty [qchar q; "["%char] i m A None 0 CNone acc sa sc)).
+           (fun acc sa sc => GstD d false S ty [qchar q; "["%char] i m A None 0 CNone acc sa sc)
+           (fun acc sa sc => GstD d true S ty [qchar q; "["%char] i m A None 0 CNone acc sa sc)).
   - intros; apply plain_bquoted; assumption.
   - intros; apply bs_step.
   - intros; apply esc_step.
@@ -421,19 +421,17 @@ Qed.
 
 Lemma regex_run S i A d term rest :
   str_in d term = false -> Ascii.eqb d " "%char = false -> Ascii.eqb d "\"%char = false ->
-  quote_wrapped term = false ->
   R (Rseek S i A false false) (c1 d ++ term ++ c1 d ++ "]" ++ rest)
   = R (Top (S ++ [(Some TSearch, ASearch i MRegex A term)])%list None A "" false false) rest.
 Proof.
-  intros H1 H2 H3 H4. change (c1 d ++ ?x) with (String d x). cbn [run].
+  intros H1 H2 H3. change (c1 d ++ ?x) with (String d x). cbn [run].
   rewrite delim_open by assumption. cbn [bind].
   rewrite run_app, delim_run by assumption. cbn [bind append].
   change (c1 d ++ ?x) with (String d x).
-  rewrite delim_close, undemarcate_id by assumption. rewrite ?aft_false. reflexivity.
+  rewrite delim_close. rewrite ?aft_false. reflexivity.
 Qed.
 
 Lemma term_run S i m A st term rest :
-  (st_quote st = None -> quote_wrapped term = false) ->
   R (Br S (Some TSearch) i (Some m) A "" false false)
     (match st_quote st with
      | None => esc_with operand_specials term
@@ -441,9 +439,9 @@ Lemma term_run S i m A st term rest :
      end ++ "]" ++ rest)
   = R (Top (S ++ [(Some TSearch, ASearch i m A (kept strip (term_set st) term))])%list None A "" false false) rest.
 Proof.
-  intros Hq. unfold term_set. destruct (st_quote st) as [q|].
+  unfold term_set. destruct (st_quote st) as [q|].
   - rewrite !app_assoc_s. change (c1 (qchar q) ++ ?x) with (String (qchar q) x). cbn [run].
-    rewrite quote_open_br. cbn [bind].
+    rewrite quote_open_br. cbn [bind opens_term nonempty negb].
     rewrite run_app, run_bq_esc by (apply first_char_ok_ff). cbn [bind].
     change (c1 (qchar q) ++ "]" ++ rest) with (String (qchar q) (String "]"%char rest)). cbn [run].
     rewrite quote_close_br. cbn [bind]. rewrite close_search. cbn [bind].
@@ -453,7 +451,6 @@ Proof.
     rewrite undemarcate_wrapped. reflexivity.
   - rewrite run_app, run_br_esc by (apply first_char_ok_ff). cbn [bind append].
     change ("]" ++ rest) with (String "]"%char rest). cbn [run]. rewrite close_search. cbn [bind].
-    rewrite undemarcate_id by (apply quote_wrapped_kept; apply Hq; reflexivity).
     rewrite ?aft_false. reflexivity.
 Qed.
 End Brackets.
@@ -614,9 +611,9 @@ Proof.
       instantiate (1 := Top ((S ++ p) ++ [kseg strip sepc (((Some TSearch, ASearch inv m (String a r) term), st), X)])%list
                             None (String a' r') "" false false).
       cbn [kseg]. rewrite Ek.
-      destruct m; try (apply term_run; intros Eq; rewrite Eq in Ht; apply negb_true_iff; exact Ht).
+      destruct m; try (apply term_run).
       (* regex *)
-      apply andb_true_iff in Ht. destruct Ht as [Ht T4]. apply andb_true_iff in Ht. destruct Ht as [Ht T3].
+      apply andb_true_iff in Ht. destruct Ht as [Ht T3].
       apply andb_true_iff in Ht. destruct Ht as [T1 T2].
       rewrite !app_assoc_s. apply regex_run; apply negb_true_iff; assumption.
     + eexists _, None, _, "", false, false, []. repeat split; try discriminate. apply app_nil_r.
@@ -644,7 +641,7 @@ Lemma inv_sc prev_coll done S ty A acc sa sc :
   Inv prev_coll done (Top S ty A acc sa sc) -> sc = true -> prev_coll = true.
 Proof.
   intros (S' & ty' & A' & acc' & sa' & sc' & p & E & _ & _ & _ & Hc2) Hsc.
-  unfold Gst in E. inversion E; subst. destruct prev_coll; [reflexivity|].
+  unfold GstD in E. inversion E; subst. destruct prev_coll; [reflexivity|].
   discriminate (Hc2 eq_refl).
 Qed.
 
